@@ -238,6 +238,7 @@ inductive Refusal where
   | sigAlgNotAllowed | digestAlgNotAllowed | emailNoDomain
   | fargMalformed      -- TypeError out of argtree.is_set
   | hokNoKeyInfo       -- holder-of-key preset: do_subject_confirmation adds the (absent) key_info
+  | ecpSignedNotElement  -- create_ecp_authn_request_response wraps a signed (= string) Response: AttributeError
 deriving Repr, DecidableEq, Inhabited
 
 /-! ### the NameID (`gather_authn_response_args`, ident.py) -/
@@ -404,6 +405,54 @@ def create {W : Type} (d : Defaults) (cfg : Cfg) (a : Args W) : Except Refusal (
       else if !d.digestAllowed.contains si.digestAlg then .error .digestAlgNotAllowed
       else .ok (response (some si))
     else .ok (response none)
+
+/-! ### the forms a boolean option may take in the configuration (`Config.load_special`) -/
+
+/-- A value as written in the configuration dictionary. -/
+inductive CfgVal where
+  | unset
+  | bool (b : Bool)
+  | str (s : String)
+  | int (n : Int)
+deriving Repr, DecidableEq, Inhabited
+
+/-- `load_special` turns exactly the strings "true" / "false" into booleans and stores anything else as
+    it is; `gather_authn_response_args` takes a stored value that is not `None`, and every later use is
+    a truthiness test.  The result is what `Cfg.signResponse` / `Cfg.signAssertion` stand for. -/
+def loadBool : CfgVal → Option Bool
+  | .unset => none
+  | .bool b => some b
+  | .str s => if s == "true" then some true else if s == "false" then some false else some (s != "")
+  | .int n => some (n != 0)
+
+/-! ### the sibling public entry points -/
+
+inductive Entry where
+  | authnResponse           -- Server.create_authn_response
+  | authnRequestResponse    -- Server.create_authn_request_response
+  | ecp                     -- Server.create_ecp_authn_request_response
+deriving Repr, DecidableEq, Inhabited
+
+/-- What an entry point hands to `create_authn_response`: the siblings forward identity, request ID,
+    consumer URL, requester, NameIDPolicy, userid, name_id, authn, sign_response, sign_assertion,
+    sign_alg, digest_alg (and, `create_authn_request_response` only, session_not_on_or_after); their
+    `**kwargs` (farg, status, release_policy, the encryption options, pefim) are dropped, i.e. stay at
+    `create_authn_response`'s defaults. -/
+def forward {W : Type} (e : Entry) (a : Args W) : Args W :=
+  match e with
+  | .authnResponse => a
+  | .authnRequestResponse => { a with farg := none, status := none, releasePolicy := none }
+  | .ecp => { a with farg := none, status := none, releasePolicy := none, sessionNooa := none }
+
+def isSigned {W : Type} (r : Issued W) : Bool := r.sig.isSome || r.assertions.any (·.sig.isSome)
+
+/-- An entry point = `create` on the forwarded arguments; the ECP one then wraps the result into a SOAP
+    envelope with `element_to_extension_element`, which only takes an element instance: a signed Response
+    is a string by then and the call raises. -/
+def createVia {W : Type} (e : Entry) (d : Defaults) (cfg : Cfg) (a : Args W) : Except Refusal (Issued W) :=
+  match create d cfg (forward e a) with
+  | .error x => .error x
+  | .ok r => if e == .ecp && isSigned r then .error .ecpSignedNotElement else .ok r
 
 /-! ### hand-over to the service-provider model -/
 
